@@ -487,6 +487,15 @@ fn check_c20(ops: &[Op], info: &PlanInfo, obs: &Obs, out: &mut Vec<Viol>) {
             }
         }
     }
+    if let Some(l) = &obs.layout {
+        for (what, l2) in &obs.layout_after_use {
+            match l2 {
+                Ok(l2) if l2.stages == l.stages && l2.tl == l.tl => {}
+                Ok(l2) => out.push(v("C20", "built-dispatcher-no-longer-matches-print", format!("after {} the dispatcher runs {:?} (thread-local {:?}), the printed plan / the fresh dispatcher say {:?} (thread-local {:?})", what, l2.stages, l2.tl, l.stages, l.tl))),
+                Err(e) => out.push(v("C20", "built-dispatcher-no-longer-matches-print", format!("after {} the dispatcher's systems can no longer be identified: {}", what, e))),
+            }
+        }
+    }
     let _ = ops;
 }
 
